@@ -118,6 +118,8 @@ def work_chunk(args):
                     agg["known"][kf] = agg["known"].get(kf, 0) + 1
                 else:
                     real.append(v)
+            if real:
+                agg["violating_runs"] = agg.get("violating_runs", 0) + 1
             if real and len(agg["violations"]) < 3:
                 agg["violations"].append({"index": i, "run_seed": scn["run_seed"], "scenario": scn,
                                           "violations": real[:5]})
@@ -158,6 +160,7 @@ def sub_main(a):
             pending.pop(done)
             r = done.result()
             total["runs"] += r["runs"]
+            total["violating_runs"] = total.get("violating_runs", 0) + r.get("violating_runs", 0)
             total["nontrivial"] += r["nontrivial"]
             total["steps"] += r["steps"]
             total["logsum"] = (total["logsum"] + r["logsum"]) % (1 << 64)
@@ -332,7 +335,7 @@ def top(a):
             real = [v for v in res.get("violations", ()) if not prop.known_finding(v, doc["scenario"])]
             if real and corpus_viol is None:
                 corpus_viol = (path, doc, real)
-    subs = [spawn_sub(pid, a.seed, tier, runs, nhash, h, per, budget) for h in range(nhash)]
+    subs = [spawn_sub(pid, a.seed, tier, runs, nhash, h, per, budget, keep_going=a.keep_going) for h in range(nhash)]
     results = []
     errors = []
     for h, p in enumerate(subs):
@@ -348,6 +351,9 @@ def top(a):
         return 2
     merged = merge(results)
     wall = time.time() - t0
+    if a.keep_going:
+        print("dsim: violating runs (keep-going mode): %d of %d" % (
+            sum(r.get("violating_runs", 0) for r in results), merged["runs"]))
     known_doc = load_known()
     # ------------------------------------------------------------ violation handling
     status = 0
